@@ -55,6 +55,18 @@ class C03(Oracle):
         if not new or new[-1].kind not in ("pulse", "ddelay"):
             return v
         slot = new[-1]
+        # the fall time is a trusted input of the bounds below; minimality needs it
+        # not to be too LONG either: each of the two terms (aligned start, end
+        # buffer) is at most the rise time of the modulator the pulse goes through
+        ch = qcs.obj
+        if slot.kind == "pulse" and getattr(ch, "mod_bandwidth", None):
+            eom = qcs.in_eom_at(slot.ti) and ch.supports_eom()
+            rt = int(ch.eom_config.rise_time if eom else ch.rise_time)
+            ft = fall_time(slot, qcs, eom)
+            if ft > 2 * rt:
+                v.append(("C03/fall-time-above-two-rise-times", f"the pulse {slot.ti}->{slot.tf} on {name} ({'EOM' if eom else 'regular'} mode) is given a fall time of {ft} ns, more than twice the rise time ({rt} ns) of the modulator it goes through: later pulses wait longer than the rule requires"))
+            else:
+                ctx.probe("fall_time_upper_bound_checked")
         proto = S.op_protocol(op)
         t0 = pcs.end
         ti = slot.ti
